@@ -24,6 +24,7 @@ func init() {
 			{ID: "C16.R2", Text: "lag = hi>lo ? hi−lo : 0 with the subtraction dominated by the comparison on the same operands; totalLag accumulates every lag and is emitted after the loop", Run: c16r2},
 			{ID: "C16.R3", Text: "counters by kind: handler→its own Add* exactly once per accepted event; Add* increments its own field by 1", Run: c16r3},
 			{ID: "C16.R4", Text: "closed-stream scrape: sends and observers uses in Collect are dominated by GetObservers()≠nil; /states/offset tests IsOpen first", Run: c16r4},
+			{ID: "C16.R6", Text: "the snapshot gauges are those of the tracked position: a tracked offset's snapshot range is never changed in place by a later marker (same rule as C06.R3)", Run: c06r3},
 			{ID: "C16.R5", Text: "active-stream count: set at open, decremented once per final end only (same rules as C12.R1, C12.R2)", Run: func(c *Ctx, id string) { c12r1(c, id); c12r2counter(c, id) }},
 		},
 	})
@@ -32,7 +33,19 @@ func init() {
 func collectFns(c *Ctx, id string) []*ssa.Function {
 	fn := c.W.Method("metric", "metricCollector", "Collect")
 	c.need(fn != nil, id, "metric.metricCollector.Collect")
-	return withAnon(fn)
+	// Collect first (rules take fns[0] as the root), then the methods of the collector it calls synchronously
+	out := withAnon(fn)
+	var helpers []*ssa.Function
+	for g := range c.W.syncCallees(fn, 2, false) {
+		if g != fn && g.Pkg == fn.Pkg && g.Signature.Recv() != nil && recvTypeName(g.Signature.Recv().Type()) == "metricCollector" {
+			helpers = append(helpers, g)
+		}
+	}
+	sort.Slice(helpers, func(i, j int) bool { return fname(helpers[i]) < fname(helpers[j]) })
+	for _, g := range helpers {
+		out = append(out, withAnon(g)...)
+	}
+	return out
 }
 
 func upperFirst(s string) string {
